@@ -115,6 +115,8 @@ def evaluate(a):
             json.dump(results, open(respath, "w"), indent=1)
     det = sum(1 for r in results.values() if r.get("detected_by"))
     print("detected %d / %d surviving mutants" % (det, len(results)))
+if not os.path.exists("/tmp/mutate"):
+    subprocess.run(["go", "build", "-o", "/tmp/mutate", "."], cwd="/verif/tools/mutate", env=ENV, check=True)
 if sys.argv[1] == "gen":
     gen(sys.argv[2:])
 else:
